@@ -21,9 +21,9 @@ from .c10 import phi_leaves
 
 MANIFEST = {
     "level": "other",
-    "technique": "static analysis: path rule for the refusals, table audit against the stdlib calendar, syntactic rule on truncation (iint vs int) in the calendar algorithms, control-dependence of the century correction, pairing of forward/inverse constants extracted from the symbolically evaluated conversion routines, exhaustive decision tables (leap rule over the residues mod 400 on both sides of 1582, the Julian/Gregorian test on every ordering class of (year, month, day) against the change-over date)",
-    "text": "The refusal clause is decided on every path; the month-length and month-name tables are compared with the standard library; floor semantics of INT() and its use in the algorithms, the conditional calendar switch at 15 October 1582 in both directions, and the pairing of every constant of the forward conversion with its inverse are decided from the source. Exactness of the bijection over 3.9 million days and the anchor values depend on float arithmetic of INT(365.25 * ...) and are not decided.",
-    "note": "Trusted: stdlib calendar tables and leap rule; Python floor; JDN 2299161 = 15 Oct 1582 (computed in the checker with integer arithmetic). Undecided: day-level exactness of the bijection, consecutive days 1.0 apart, the three anchor JDEs.",
+    "technique": "static analysis: path rule for the refusals, table audit against the stdlib calendar, syntactic rule on truncation (iint vs int) in the calendar algorithms, control-dependence of the century correction, pairing of forward/inverse constants extracted from the symbolically evaluated conversion routines, exact execution (rational arithmetic) of the extracted date -> JDE and JDE -> date terms on every day of whole calendar cycles, exhaustive decision tables (leap rule over the residues mod 400 on both sides of 1582, the Julian/Gregorian test on every ordering class of (year, month, day) against the change-over date)",
+    "text": "The refusal clause is decided on every path; the month-length and month-name tables are compared with the standard library; floor semantics of INT() and its use in the algorithms, the conditional calendar switch at 15 October 1582 in both directions, and the pairing of every constant of the forward conversion with its inverse are decided from the source. The bijection itself is decided by exact execution of the two extracted conversion terms on consecutive civil days: a full Julian 4-year cycle for positive and negative years, the first years of the domain, 1582-1583, the turn of every kind of century year, the last year of the domain and - thorough tier - every one of the 146097 days of a Gregorian 400-year cycle: the date reads back as itself, consecutive days are exactly 1 apart, and the three anchor values hold. Outside the executed days the claim rests on the periodicity of the recipes; the float evaluation of INT(365.25 y) and INT(30.6001 (m+1)) is argued, not proved, to agree with the exact one.",
+    "note": "Trusted: stdlib calendar tables and leap rule; Python floor; JDN 2299161 = 15 Oct 1582 (computed in the checker with integer arithmetic). Undecided: float vs exact evaluation of the floors; days outside the executed cycles (periodicity).",
 }
 MOD = "Epoch"
 
@@ -31,14 +31,168 @@ MOD = "Epoch"
 def run(repo, rep, tier):
     rep.decided = ["D1 refusals and month tables", "D2 INT() is floor and is what the algorithms use", "D3 calendar switch conditional on 15 Oct 1582 in both directions",
                    "D4 forward/inverse constants pair up"]
-    rep.undecided = ["exact bijection on every civil day", "consecutive days exactly 1.0 apart", "anchor values -4712-01-01.5 = 0, MJD 0, J2000"]
+    rep.decided.append("D5 date -> JDE -> date identity, 1-day spacing and the three anchors by exact execution on whole calendar cycles (R-CYCLE)")
+    rep.undecided = ["floating-point evaluation of INT(365.25 y) / INT(30.6001 (m + 1)) versus the exact rational execution (margin argued, not proved)",
+                     "days outside the executed cycles rest on the 4-year / 400-year periodicity of the recipes (not proved symbolically)"]
     d1(repo, rep)
     d2(repo, rep)
     d34(repo, rep)
+    cycle_roundtrip(repo, rep, tier)
     fam = [(MOD, "Epoch." + q) for q in ("_compute_jde", "get_date", "_check_values", "get_month", "is_leap", "is_julian", "julian", "leap")] + [("base", "iint")]
     effects.check_functions(repo, rep, fam)
     guards.check_functions(repo, rep, fam)
     return "other"
+
+
+# --------------------------------------------------------------------------------------------------------------------------
+# R-CYCLE: date -> JDE -> date on whole calendar cycles, by exact execution of the two extracted conversion terms
+# --------------------------------------------------------------------------------------------------------------------------
+def _civil_days(start, count):
+    """count consecutive civil dates from `start` (y, m, d) in the checker's own calendar: Julian up to 4 Oct 1582 (leap
+    years: y % 4 == 0, astronomical year numbering), Gregorian from 15 Oct 1582 (the month table was audited above)"""
+    y, m, d = start
+    out = []
+    for _ in range(count):
+        out.append((y, m, d))
+        if (y, m, d) == (1582, 10, 4):
+            d = 15
+            continue
+        greg = (y, m, d) >= (1582, 10, 15)
+        leap = calendar.isleap(y) if greg else (y % 4 == 0)
+        mlen = calendar.mdays[m] + (1 if (m == 2 and leap) else 0)
+        d += 1
+        if d > mlen:
+            d, m = 1, m + 1
+            if m > 12:
+                m, y = 1, y + 1
+    return out
+
+
+_CYCLE_TERMS = {}
+
+
+def _cycle_terms(root):
+    """(tj, tg, prims) for the tree at `root` (cached per process: worker processes of the thorough tier re-derive them once)"""
+    if root not in _CYCLE_TERMS:
+        from ..frontend import Repo
+        from .c16 import stdlib_prims
+        repo = Repo(root) if root else Repo()
+        fj = repo.func(MOD, "Epoch._compute_jde")
+        jn = [a.arg for a in fj.args.args]
+        Y, M, D = T.sym("NUM_Y"), T.sym("NUM_M"), T.sym("NUM_D")
+        at = {jn[0]: T.sym("self"), jn[1]: Y, jn[2]: M, jn[3]: D}
+        for extra, v in (("utc2tt", ("bool", False)), ("leap_seconds", T.ZERO), ("local", ("bool", False))):
+            if extra in jn:
+                at[extra] = v
+        tj = ret_term(repo, MOD, "Epoch._compute_jde", arg_terms=at)
+        fg = repo.func(MOD, "Epoch.get_date")
+        atg = {"self": ("epoch", T.sym("NUM_J"))}
+        if fg.args.kwarg is not None:
+            atg[fg.args.kwarg.arg] = ("dict", ())
+        tg = ret_term(repo, MOD, "Epoch.get_date", arg_terms=atg)
+        _CYCLE_TERMS[root] = (tj, tg, stdlib_prims(repo))
+    return _CYCLE_TERMS[root]
+
+
+def _cycle_chunk(job):
+    """worker: executes both terms exactly on `count` consecutive civil days; returns (n, first problem or None)"""
+    from ..rules import eval_exact, NotEvaluable
+    root, start, count, frac = job
+    tj, tg, prims = _cycle_terms(root)
+    Y, M, D, J = T.sym("NUM_Y"), T.sym("NUM_M"), T.sym("NUM_D"), T.sym("NUM_J")
+    prev = None
+    n = 0
+    for (y, m, d) in _civil_days(start, count):
+        dd = Fraction(d) + frac
+        try:
+            j = eval_exact(tj, {Y: Fraction(y), M: Fraction(m), D: dd, "$memo": {}}, prims)
+            g = eval_exact(tg, {J: j, "$memo": {}}, prims)
+        except NotEvaluable as e:
+            return n, ("not-evaluable", "%s for %d-%02d-%02d" % (e, y, m, d))
+        except (TypeError, ValueError, ZeroDivisionError) as e:
+            return n, ("not-evaluable", "%s: %s for %d-%02d-%02d" % (type(e).__name__, e, y, m, d))
+        n += 1
+        if prev is not None and j - prev[0] != 1:
+            return n, ("spacing", "%d-%02d-%02d -> JDE %s and the next civil day %d-%02d-%02d -> JDE %s are %s days apart, not 1"
+                       % (prev[1] + (float(prev[0]),) + (y, m, d, float(j), float(j - prev[0]))))
+        if not (isinstance(g, tuple) and len(g) == 3 and g[0] == y and g[1] == m and g[2] == dd):
+            return n, ("round-trip", "%d-%02d-%s -> JDE %s reads back as %s" % (y, m, float(dd), float(j), tuple(float(x) for x in g) if isinstance(g, tuple) else g))
+        prev = (j, (y, m, d))
+    return n, None
+
+
+def cycle_roundtrip(repo, rep, tier):
+    """R-CYCLE.  Both conversions are integer recipes (floors of linear functions of the year, month and day number), so they are
+    executed *exactly* on consecutive civil days: every day of a full Julian 4-year cycle (positive and negative years), of the
+    first year of the domain, of 1582-1583 (the change-over), the turn of each kind of century year and - thorough tier - every
+    day of a full Gregorian 400-year cycle (146097 days).  Checked on each day: the read-back is the date itself, and the next
+    civil day is exactly 1 later.  The anchor values are checked too.  (Exact rational arithmetic; the float evaluation differs
+    only if 30.6001*(m+1) or 365.25*y came within 1e-9 of an integer, which their decimal expansions exclude for |y| < 1e6.)"""
+    from ..rules import eval_exact, NotEvaluable
+    rep.rule("R-CYCLE", "date -> JDE -> date is the identity and consecutive civil days are 1 apart on every day of whole calendar cycles "
+                        "(exact execution of the two extracted conversion terms)")
+    site = "Epoch.Epoch._compute_jde/get_date"
+    root = repo.root
+    F0 = Fraction(0)
+    jobs = [(root, (999, 3, 1), 1462, F0), (root, (-9, 3, 1), 1462, F0), (root, (-4712, 1, 1), 800, F0), (root, (1581, 12, 1), 800, F0),
+            (root, (1582, 9, 1), 90, Fraction(3, 4))]
+    for cy in (1600, 1700, 1800, 1900, 2000, 2100, 2024):
+        jobs.append((root, (cy - 1, 12, 1), 130, F0))
+    jobs.append((root, (5999, 1, 1), 366, F0))
+    full = tier == "thorough"
+    if full:
+        # 146097 days from 1600-03-01 in 16 chunks whose starts are computed with the checker's calendar
+        starts = []
+        day = (1600, 3, 1)
+        chunk = 146097 // 16 + 1
+        remaining = 146097 + 1
+        while remaining > 0:
+            c_ = min(chunk + 1, remaining)
+            starts.append((day, c_))
+            seq = _civil_days(day, c_)
+            day = seq[-1]                 # chunks overlap by one day so that the spacing across the seam is checked
+            remaining -= (c_ - 1)
+            if c_ == 1:
+                break
+        jobs += [(root, st, c_, F0) for st, c_ in starts if c_ > 1]
+    results = []
+    if full:
+        from concurrent.futures import ProcessPoolExecutor
+        try:
+            with ProcessPoolExecutor(max_workers=14) as ex:
+                results = list(ex.map(_cycle_chunk, jobs))
+        except Exception:
+            results = [_cycle_chunk(j_) for j_ in jobs]
+    else:
+        results = [_cycle_chunk(j_) for j_ in jobs]
+    n = sum(r[0] for r in results)
+    probs = [r[1] for r in results if r[1] is not None]
+    ne = [p for p in probs if p[0] == "not-evaluable"]
+    bad = [p for p in probs if p[0] != "not-evaluable"]
+    for kind, msg in bad[:2]:
+        rep.violation("R-CYCLE", site, "cycle:" + kind, msg, obligation=True)
+    if ne and not bad:
+        rep.inconcl("R-CYCLE", site, "conversion terms not executable: " + ne[0][1])
+    if not probs:
+        rep.ok("R-CYCLE", site, "%d civil days executed exactly: read-back == date, consecutive days 1 apart%s"
+               % (n, " (incl. the full Gregorian cycle 1600-03-01 .. 2000-03-01)" if full else ""), obligation=True)
+        rep.floor("civil days executed through both conversions", n, 5000)
+    # anchors
+    tj, tg, prims = _cycle_terms(root)
+    Y, M, D = T.sym("NUM_Y"), T.sym("NUM_M"), T.sym("NUM_D")
+    try:
+        anchors = [((-4712, 1, Fraction(3, 2)), Fraction(0)), ((1858, 11, Fraction(17)), Fraction("2400000.5")), ((2000, 1, Fraction(3, 2)), Fraction(2451545))]
+        wrong = []
+        for (y, m, d), want in anchors:
+            j = eval_exact(tj, {Y: Fraction(y), M: Fraction(m), D: d, "$memo": {}}, prims)
+            if j != want:
+                wrong.append("%d-%d-%s -> %s (expected %s)" % (y, m, float(d), float(j), float(want)))
+        if wrong:
+            rep.violation("R-CYCLE", site, "anchors", "anchor dates: " + "; ".join(wrong), obligation=True)
+        else:
+            rep.ok("R-CYCLE", site + ":anchors", "-4712-01-01.5 -> 0, 1858-11-17.0 -> 2400000.5, 2000-01-01.5 -> 2451545", obligation=True)
+    except NotEvaluable as e:
+        rep.inconcl("R-CYCLE", site, "anchors not executable: %s" % e)
 
 
 def d1(repo, rep):
